@@ -153,6 +153,32 @@ func translateFuncMode(fi *funcInfo, chk bool) {
 		t.fail(fi.decl, "partially named results")
 	}
 	ws := t.writesOf(fi.decl.Body)
+	initPre := ""
+	if fi.decl.Name.Name == "init" && fi.decl.Recv == nil {
+		// an init(): the package-level variables it assigns are local to the translation and form its result
+		t.initMode = true
+		t.initVars = map[*types.Var]bool{}
+		for v := range ws.vars {
+			if isGlobal(v) {
+				t.initVars[v] = true
+			}
+		}
+		for _, v := range t.initOrder() {
+			val := zeroValue(v.Type())
+			if g, ok := globalInits[fi.pkgdir+"."+v.Name()]; ok {
+				// declared with an initialiser: that value is what init starts from
+				tt := newTr(&funcInfo{key: fi.key, pkgdir: fi.pkgdir, pkg: g.pkg}, g.pkg.TypesInfo)
+				val = tt.expr(g.val)
+				if len(tt.pre) > 0 {
+					t.fail(fi.decl, "initialiser of %s has effects", v.Name())
+				}
+				for d := range tt.deps {
+					t.deps[d] = true
+				}
+			}
+			initPre += "let " + t.name(v) + " : " + leanType(v.Type()) + " := " + val + "\n"
+		}
+	}
 	for i, p := range fi.params {
 		if ws.deep[p] && !byRef(p.Type()) && hasPointerField(p.Type()) {
 			t.fail(fi.decl, "by-value struct parameter %s is written through", p.Name())
@@ -187,6 +213,9 @@ func translateFuncMode(fi *funcInfo, chk bool) {
 	if fi.fuel {
 		t.retTy = "(" + t.retTy + " × Bool)"
 	}
+	if t.initMode {
+		t.retTy = t.tupleType(t.initOrder())
+	}
 	lname := fi.lean
 	if chk {
 		t.retTy = "Bool"
@@ -212,7 +241,7 @@ func translateFuncMode(fi *funcInfo, chk bool) {
 			return t.retTuple(nil)
 		},
 		retTerm: func(term string) string { return term }}
-	body := namedPre + t.stmts(fi.decl.Body.List, k)
+	body := initPre + namedPre + t.stmts(fi.decl.Body.List, k)
 	doc := fmt.Sprintf("/-- `%s` (%s). -/\n", fi.key, filepath.Base(fset.Position(fi.decl.Pos()).Filename))
 	if chk {
 		doc = fmt.Sprintf("/-- checked variant of `%s`: no run-time panic on this input. -/\n", fi.key)
